@@ -18,6 +18,7 @@ use cglue::*;
 use gluert::{P2, S3};
 use cglue::trait_group::c_void;
 pub type AliasRes<T, E> = Result<T, E>;
+pub type IoRes<T> = Result<T, std::io::Error>;
 """
 
 PROBE_KINDS = ["Box", "Mut", "Ref", "ArcBox", "ArcMut", "ArcRef"]
